@@ -7,7 +7,7 @@
   trip is `roundtrip_scalar_fragment`; the round trip of whole schema trees (every keyword; no nil child) is
   `roundtrip_tree` (helper lemmas: JSV/Proofs/MshTree.lean); what is missing for the full statement is listed
   after it.  The tree read back accepts the same instances: `roundtrip_tree_meaning_partial` (reference-free trees, any
-  tables; helper lemmas: JSV/Proofs/IsoValid.lean) and `roundtrip_tree_meaning` (trees with references, both sides
+  tables; helper lemmas: JSV/Proofs/IsoValid.lean) and `roundtrip_tree_meaning_resolved_partial` (trees with references, both sides
   resolved; helper lemmas: JSV/Proofs/ResIso*.lean, ResIsoNorm.lean — Resolve commutes with a renaming of node ids and
   does not see the normal forms).
 -/
@@ -321,8 +321,8 @@ theorem normal_forms_invisible (env : Spec.Env) (st : Store) (hst : Refine.Store
     Proof: the normal forms are invisible (`normal_forms_invisible`), and validity is invariant under the renaming of node
     ids that `Go.TreeEq` describes (`Iso.evalFuel_sim`).
     PARTIAL: trees containing `$ref` / `$dynamicRef` are not covered by THIS statement (arbitrary, unrelated tables) —
-    their meaning depends on what `Resolve` computes for each of the two trees; for them see `treeEq_meaning` /
-    `roundtrip_tree_meaning` below (`Resolve` on both sides; the two resolutions are related, `Go.RIso.treeEq_resolves`). -/
+    their meaning depends on what `Resolve` computes for each of the two trees; for them see `treeEq_meaning_resolved_partial` /
+    `roundtrip_tree_meaning_resolved_partial` below (`Resolve` on both sides; the two resolutions are related, `Go.RIso.treeEq_resolves`). -/
 theorem treeEq_meaning_partial {st st' : Store} {d : Nat} {a b : NodeId} (hte : Go.TreeEq st st' d a b)
     (hfree : Go.treeAll Iso.noRefs st d a = true) (hst : Refine.StoreWF st) (env env' : Spec.Env)
     (hd : env.draft = env'.draft) (hre : env.reMatch = env'.reMatch) (fuel : Nat) (inst : Json)
@@ -404,11 +404,15 @@ theorem treeEq_resolves_partial (st st' : Store) (env : Go.Env) (hnd : Go.RIso.N
   exact ⟨rs', h₂, e1, e2, fun reMatch vfuel inst hinst =>
     ⟨e3 reMatch vfuel inst hinst, Iso.valid_of_outSim (e3 reMatch vfuel inst hinst)⟩⟩
 
-/-- `treeEq_meaning`: two trees equal up to the normal forms of the round trip (`Go.TreeEq`), EACH RESOLVED ON ITS OWN
-    (self-contained: `NoDocs`; same options, base URI and fuel), have the same draft and Loader log and accept the same
+/-- `treeEq_meaning_resolved_partial`: two trees equal up to the normal forms of the round trip (`Go.TreeEq`), EACH
+    RESOLVED ON ITS OWN (same options, base URI and fuel), have the same draft and Loader log and accept the same
     instances: Spec results that agree up to the order of the evaluated-property list, the same verdict, with every
-    amount of fuel.  No hypothesis on `$ref` / `$dynamicRef`. -/
-theorem treeEq_meaning (st st' : Store) (env : Go.Env) (hnd : Go.RIso.NoDocs env)
+    amount of fuel.  No hypothesis on `$ref` / `$dynamicRef`.
+    PARTIAL: (i) the resolution is self-contained (`NoDocs`: documents fetched through a Loader are not covered — for
+    CloneSchemas they are, `C20.clone_validates_same_docs`); (ii) that `Resolve` of the second tree returns normally is
+    a hypothesis here (`h₂`); it follows from `Resolve` of the first one returning normally when checkStructure accepts
+    the second tree (`treeEq_resolves_partial`). -/
+theorem treeEq_meaning_resolved_partial (st st' : Store) (env : Go.Env) (hnd : Go.RIso.NoDocs env)
     (hk : Go.RPerm.StoreKeysNodup st) (hs : st.size ≤ 1000000000) (hs' : st'.size ≤ 1000000000) {a b : NodeId} {d : Nat}
     (hte : Go.TreeEq st st' d a b) (hwf : Go.treeAll Go.nodeOK st d a = true) (fuel : Nat) (base : String)
     (rs rs' : Go.Resolved) (h₁ : Go.resolve { env with st := st } fuel a base = .ok rs)
@@ -425,15 +429,16 @@ theorem treeEq_meaning (st st' : Store) (env : Go.Env) (hnd : Go.RIso.NoDocs env
   cases h₂'
   exact ⟨e1, e2, e3⟩
 
-/-- **`roundtrip_tree_meaning`** (C05, no carve-out on references).  For a well-formed tree (`TreeWF`) in a store
-    whose maps have distinct keys: whatever MarshalJSON writes, UnmarshalJSON reads back — into any store `st₂` — as a
-    tree `id'` such that, whenever the original and the tree read back are EACH RESOLVED ON ITS OWN (self-contained
-    resolution, same options, same base URI, stores below the nil id), they have the same draft and Loader log and accept
-    exactly the same instances (the same verdict; Spec results equal up to the order of the evaluated-property list),
-    with every amount of fuel — trees with `$ref` / `$dynamicRef` / `$id` / `$anchor` / `$dynamicAnchor` included.
-    That `Resolve` of the tree read back does return normally when `Resolve` of the original does is
-    `treeEq_resolves_partial` (up to: the tree read back is accepted by checkStructure). -/
-theorem roundtrip_tree_meaning (st : Store) (id : NodeId) (j : Json) (st₂ : Store)
+/-- **`roundtrip_tree_meaning_resolved_partial`** (C05, no carve-out on references).  For a well-formed tree (`TreeWF`)
+    in a store whose maps have distinct keys: whatever MarshalJSON writes, UnmarshalJSON reads back — into any store
+    `st₂` — as a tree `id'` such that, whenever the original and the tree read back are EACH RESOLVED ON ITS OWN (same
+    options, same base URI, stores below the nil id), they have the same draft and Loader log and accept exactly the same
+    instances (the same verdict; Spec results equal up to the order of the evaluated-property list), with every amount
+    of fuel — trees with `$ref` / `$dynamicRef` / `$id` / `$anchor` / `$dynamicAnchor` included.
+    PARTIAL: (i) self-contained resolution only (`NoDocs`); (ii) that `Resolve` of the tree read back does return
+    normally when `Resolve` of the original does is `treeEq_resolves_partial`, up to: the tree read back is accepted by
+    checkStructure (UnmarshalJSON decodes every JSON object into a fresh `Schema`; not derived from its model). -/
+theorem roundtrip_tree_meaning_resolved_partial (st : Store) (id : NodeId) (j : Json) (st₂ : Store)
     (hwf : TreeWF st id) (hj : Go.marshal st id = .ok j) (hk : Go.RPerm.StoreKeysNodup st)
     (hs : st.size ≤ 1000000000) (env : Go.Env) (hnd : Go.RIso.NoDocs env) :
     ∃ id' st₂', Go.unmarshal j st₂ = .ok (id', st₂') ∧
@@ -451,10 +456,10 @@ theorem roundtrip_tree_meaning (st : Store) (id : NodeId) (j : Json) (st₂ : St
     Go.treeAll_mono (Go.treeAll_mono (Go.treeAll_imp
       (fun n hn => by simp only [Go.nodeWF, Bool.and_eq_true] at hn; exact hn.1) hwf))
   exact ⟨id', st₂', hu, fun fuel base rs rs' hs' h₁ h₂ =>
-    treeEq_meaning st st₂' env hnd hk hs hs' hte hok fuel base rs rs' h₁ h₂⟩
+    treeEq_meaning_resolved_partial st st₂' env hnd hk hs hs' hte hok fuel base rs rs' h₁ h₂⟩
 
 /-! ### What is missing for the full round trip
-  * `roundtrip_tree_meaning` (the two trees accept the same instances, references included) is proved for the two trees
+  * `roundtrip_tree_meaning_resolved_partial` (the two trees accept the same instances, references included) is proved for the two trees
     EACH RESOLVED ON ITS OWN, self-contained resolution (`Go.RIso.NoDocs`: documents fetched through a Loader are not
     covered); that `Resolve` of the tree read back returns normally whenever `Resolve` of the original does is
     `treeEq_resolves_partial`, which assumes that checkStructure accepts the tree read back (UnmarshalJSON decodes every
@@ -724,7 +729,7 @@ example (st₂ : Store) (env : Spec.Env) :
 example : Spec.valid (exSpecEnv exTree) 4 0 (.obj [("a", .num 1), ("b", .str "xy")]) = some true := by decide
 example : Spec.valid (exSpecEnv exTree) 4 0 (.obj [("a", .num 1), ("b", .str "xy"), ("c", .null)]) = some false := by decide
 
-/-! ### `roundtrip_tree_meaning` is not vacuous: a tree WITH `$ref` (by pointer and by `$anchor`), `$dynamicRef`,
+/-! ### `roundtrip_tree_meaning_resolved_partial` is not vacuous: a tree WITH `$ref` (by pointer and by `$anchor`), `$dynamicRef`,
   `$dynamicAnchor`, `$id`; `$defs` is listed in descending key order, so it comes back reordered -/
 
 def exRT : Store := #[
@@ -753,7 +758,7 @@ example : ∃ j id' st₂', Go.marshal exRT 0 = .ok j ∧ Go.unmarshal j #[] = .
   have hok : (Go.marshal exRT 0).isOk = true := by decide +kernel
   cases hj : Go.marshal exRT 0 with
   | ok j =>
-    obtain ⟨id', st₂', hu, h⟩ := roundtrip_tree_meaning exRT 0 j #[] exRT_wf hj exRT_keys (by decide) exRTEnv
+    obtain ⟨id', st₂', hu, h⟩ := roundtrip_tree_meaning_resolved_partial exRT 0 j #[] exRT_wf hj exRT_keys (by decide) exRTEnv
       exRTEnv_noDocs
     exact ⟨j, id', st₂', rfl, hu, h⟩
   | fuel => rw [hj] at hok; cases hok
